@@ -217,7 +217,7 @@ func isolationRun(r *vh.Runner, c *vh.Case, i int) {
 		for side := 0; side < 2; side++ {
 			for k := 0; k < nPer; k++ {
 				uid++
-				inst := &instance{uid: uid, gen: gen, creator: side, reliable: rng.Chance(0.65), ttype: tubes.TubeType(uid % 250)}
+				inst := &instance{uid: uid, gen: gen, creator: side, reliable: rng.Chance(0.65), ttype: tubes.TubeType(byte(uid*73 + 11))}
 				inst.key = streamKey(x.seed, uid, 0)
 				if inst.reliable {
 					inst.total = []int64{1, 500, 5000, 40000, 120000}[rng.Intn(5)]
